@@ -131,18 +131,18 @@ theorem diffTables2_prefix (ots : List Table) : ∀ (m m' : Migration), diffTabl
 
 end Migration
 
-/-- **C01 / C02, column clause, end to end on the implementation model** (MySQL reader, default field order) -/
-theorem columns_end_to_end (g : Globals) (hg : g.dialect = .mysql) (hio : g.ignoreOrder = false) (rc : Bool)
+/-- the record `Migration.Diff` leaves for a table present on both sides: named as the table, no action of its own,
+    fixed by `Arrange`, columns = the tagged merged list of the two reference column lists -/
+theorem diffed_record (g : Globals) (hg : g.dialect = .mysql) (rc : Bool)
     (old new : List Stmt) (dbO dbN : DB) (ho : old.all Stmt.colSafe = true) (hn : new.all Stmt.colSafe = true)
     (heo : execAll rc [] old = some dbO) (hen : execAll rc [] new = some dbN)
     (d : Migration) (hd : loadAndDiff g old new = .ok d)
     (t : String) (tbO tbN : TableSpec) (hfo : dbO.find t = some tbO) (hfn : dbN.find t = some tbN)
-    (hc : Abs.OrderCompatible tbN.colNames tbO.colNames) (hne : ∀ n ∈ tbN.colNames ++ tbO.colNames, n ≠ "") :
+    (hne : ∀ n ∈ tbN.colNames ++ tbO.colNames, n ≠ "") :
     ∃ td ∈ d.tables, td.name = t ∧ td.action = .none ∧ td.arrange = .ok td ∧
-      td.migrationColumnUp g = .ok (Table.walkCols g t true [] td.cols) ∧
-      td.migrationColumnDown g = .ok (Table.walkCols g t false [] td.cols) ∧
-      Abs.execAll tbO.colNames ((Table.walkCols g t true [] td.cols).1.filterMap colStmt) = some tbN.colNames ∧
-      Abs.execAll tbN.colNames ((Table.walkCols g t false [] td.cols).1.filterMap colStmt) = some tbO.colNames := by
+      absCols td.cols = Abs.tagged tbN.colNames tbO.colNames ∧ (∀ c ∈ td.cols, SimpleAction c.action) ∧
+      (∀ c ∈ ([] : List Column) ++ td.cols, c.name ≠ "") ∧ (td.cols.map (·.name)).Nodup ∧
+      tbN.colNames.Nodup ∧ tbO.colNames.Nodup := by
   -- both sides loaded: related to their reference schemas
   unfold loadAndDiff at hd
   obtain ⟨o, hlo, hd⟩ := bind_ok hd
@@ -201,7 +201,6 @@ theorem columns_end_to_end (g : Globals) (hg : g.dialect = .mysql) (hio : g.igno
   have hname : td.name = t := by
     have := Table.diff_inv g.dialect tn ot t1 hi_n hi_o (hrn.np tn hmemn) ht1
     rw [htdeq]; show t1.name = t; rw [this.2]; exact hnmn
-  have hd_sq : g.dialect ≠ .sqlite := by rw [hg]; decide
   have hnd : (td.cols.map (·.name)).Nodup := hdi.cols.nodup
   have hne_td : ∀ c ∈ ([] : List Column) ++ td.cols, c.name ≠ "" := by
     intro c hc
@@ -216,12 +215,79 @@ theorem columns_end_to_end (g : Globals) (hg : g.dialect = .mysql) (hio : g.igno
   have hNnd : tbN.colNames.Nodup := by rw [← hcoln]; exact hi_n.cols.nodup
   have hOnd : tbO.colNames.Nodup := by rw [← hcolo]; exact hi_o.cols.nodup
   have hact : td.action = .none := by rw [htdeq]
-  refine ⟨td, htd_mem, hname, hact, arrange_id td hdi.colInv, ?_, ?_, ?_, ?_⟩
+  exact ⟨td, htd_mem, hname, hact, arrange_id td hdi.colInv, habs, hsimple_td, hne_td, hnd, hNnd, hOnd⟩
+
+/-- **C01 / C02, column clause, end to end on the implementation model** (MySQL reader, default field order) -/
+theorem columns_end_to_end (g : Globals) (hg : g.dialect = .mysql) (hio : g.ignoreOrder = false) (rc : Bool)
+    (old new : List Stmt) (dbO dbN : DB) (ho : old.all Stmt.colSafe = true) (hn : new.all Stmt.colSafe = true)
+    (heo : execAll rc [] old = some dbO) (hen : execAll rc [] new = some dbN)
+    (d : Migration) (hd : loadAndDiff g old new = .ok d)
+    (t : String) (tbO tbN : TableSpec) (hfo : dbO.find t = some tbO) (hfn : dbN.find t = some tbN)
+    (hc : Abs.OrderCompatible tbN.colNames tbO.colNames) (hne : ∀ n ∈ tbN.colNames ++ tbO.colNames, n ≠ "") :
+    ∃ td ∈ d.tables, td.name = t ∧ td.action = .none ∧ td.arrange = .ok td ∧
+      td.migrationColumnUp g = .ok (Table.walkCols g t true [] td.cols) ∧
+      td.migrationColumnDown g = .ok (Table.walkCols g t false [] td.cols) ∧
+      Abs.execAll tbO.colNames ((Table.walkCols g t true [] td.cols).1.filterMap colStmt) = some tbN.colNames ∧
+      Abs.execAll tbN.colNames ((Table.walkCols g t false [] td.cols).1.filterMap colStmt) = some tbO.colNames := by
+  obtain ⟨td, htd_mem, hname, hact, harr, habs, hsimple_td, hne_td, _, hNnd, hOnd⟩ :=
+    diffed_record g hg rc old new dbO dbN ho hn heo hen d hd t tbO tbN hfo hfn hne
+  have hd_sq : g.dialect ≠ .sqlite := by rw [hg]; decide
+  refine ⟨td, htd_mem, hname, hact, harr, ?_, ?_, ?_, ?_⟩
   · unfold Table.migrationColumnUp; rw [hact, hname]; rfl
   · unfold Table.migrationColumnDown; rw [hact, hname]; rfl
   · rw [(walkCols_up_refines g hio hd_sq t td.cols [] hsimple_td hne_td).1, habs]
     exact Abs.columns_up tbN.colNames tbO.colNames hNnd hOnd hc
   · rw [(walkCols_down_refines g hio hd_sq t td.cols [] hsimple_td hne_td).1, habs]
     exact Abs.columns_down tbN.colNames tbO.colNames hNnd hOnd hc
+
+/-- **C13, end to end**: under the ignore-field-order option the printed statements carry no position; the kept
+    columns stay where they are and the added ones are appended -/
+theorem columns_end_to_end_ignore (g : Globals) (hg : g.dialect = .mysql) (hio : g.ignoreOrder = true) (rc : Bool)
+    (old new : List Stmt) (dbO dbN : DB) (ho : old.all Stmt.colSafe = true) (hn : new.all Stmt.colSafe = true)
+    (heo : execAll rc [] old = some dbO) (hen : execAll rc [] new = some dbN)
+    (d : Migration) (hd : loadAndDiff g old new = .ok d)
+    (t : String) (tbO tbN : TableSpec) (hfo : dbO.find t = some tbO) (hfn : dbN.find t = some tbN)
+    (hc : Abs.OrderCompatible tbN.colNames tbO.colNames) (hne : ∀ n ∈ tbN.colNames ++ tbO.colNames, n ≠ "") :
+    ∃ td ∈ d.tables, td.name = t ∧ td.arrange = .ok td ∧
+      td.migrationColumnUp g = .ok (Table.walkCols g t true [] td.cols) ∧
+      (∀ s ∈ (Table.walkCols g t true [] td.cols).1.filterMap colStmt, ∀ c p, s ≠ Abs.Stmt.addCol c p) ∧
+      Abs.execAll tbO.colNames ((Table.walkCols g t true [] td.cols).1.filterMap colStmt) =
+        some (Abs.keptSide (Abs.tagged tbN.colNames tbO.colNames) ++ Abs.addedSide (Abs.tagged tbN.colNames tbO.colNames)) := by
+  obtain ⟨td, htd_mem, hname, hact, harr, habs, hsimple_td, _, hnd, hNnd, hOnd⟩ :=
+    diffed_record g hg rc old new dbO dbN ho hn heo hen d hd t tbO tbN hfo hfn hne
+  have hd_sq : g.dialect ≠ .sqlite := by rw [hg]; decide
+  have hold : Abs.oldSide (absCols td.cols) = tbO.colNames := by
+    rw [habs, (Abs.sides tbN.colNames tbO.colNames).1]
+    exact (Abs.Merge.merge_correct tbN.colNames tbO.colNames hNnd hOnd hc).1
+  have href := walkCols_up_ignore_refines g hio hd_sq t td.cols [] hsimple_td
+  have hn' : (absCols td.cols).map (·.1) = td.cols.map (·.name) := by
+    simp [absCols, List.map_map, Function.comp_def]
+  refine ⟨td, htd_mem, hname, harr, ?_, ?_, ?_⟩
+  · unfold Table.migrationColumnUp; rw [hact, hname]; rfl
+  · rw [href]
+    intro s hs c p
+    -- the abstract walk under the option never prints a positional ADD
+    have : ∀ (m : Abs.M), ∀ s ∈ Abs.emitUpIgnore m, ∀ c p, s ≠ Abs.Stmt.addCol c p := by
+      intro m
+      induction m with
+      | nil => intro s hs; cases hs
+      | cons hd r ih =>
+        obtain ⟨n, tg⟩ := hd
+        intro s hs c p
+        cases tg with
+        | keep => exact ih s (by simpa [Abs.emitUpIgnore] using hs) c p
+        | add =>
+          simp only [Abs.emitUpIgnore, List.mem_cons] at hs
+          rcases hs with h1 | h1
+          · rw [h1]; intro e; cases e
+          · exact ih s h1 c p
+        | rem =>
+          simp only [Abs.emitUpIgnore, List.mem_cons] at hs
+          rcases hs with h1 | h1
+          · rw [h1]; intro e; cases e
+          · exact ih s h1 c p
+    exact this _ s hs c p
+  · rw [href, ← habs, ← hold]
+    exact Abs.emitUpIgnore_correct (absCols td.cols) (by rw [hn']; exact hnd)
 
 end Sqlize
